@@ -362,7 +362,7 @@ class FSTView:
     def _len_field(self) -> int:
         """Length of full base `FST` field, irrespective of view `start` and `stop`."""
 
-        return len(getattr(self.base.a, self.field))
+        return len(getattr(self.base.a, self.field, ()))  # a normalizing put may have replaced the base with its last remaining element which does not have this field ('a or b' -> 'b'), the view is empty then
 
     def _getitem(self, idx: int) -> FSTView | AST | str | None:
         """Return a single item from field (which may not be a contiguous list). `idx` is the real index already
